@@ -26,6 +26,13 @@ def rand_job(rng, hard=False):
     ops = []
     x, y = rng.uniform(-80, 80), rng.uniform(-80, 80)
     ops += [0, f2b(x), f2b(y)]
+    if rng.random() < 0.08:
+        # a zero-length closed first contour (M p L p Z or M p Z), then possibly more
+        ops += ([1, f2b(x), f2b(y)] if rng.random() < 0.7 else []) + [4]
+        if rng.random() < 0.5:
+            ops += [0, f2b(x + 5), f2b(y)]
+        else:
+            return [len(ops)] + ops + [f2b(rng.choice([1.0, 2.0, 7.5, 20.0])), f2b(4.0), rng.choice([1, 2, 1, 2, 0]), rng.randrange(4), f2b(1.0)]
     for _ in range(rng.randint(1, 4)):
         k = rng.random()
         def pt(sc=60):
@@ -87,6 +94,12 @@ def gen_cases(rng, tier):
     for i in range(60 if q else 800):
         w, h = rng.choice([(24, 24), (40, 17)])
         cases.append(("draw_hist", [rng.getrandbits(40), rng.getrandbits(40), w, h, rng.randrange(7), rng.randrange(7), 16 if i % 4 == 0 else 2]))
+    # the same stroke after the same path was stroked under another scale (a result cached on less than all its inputs)
+    from .geomgen import rand_path_ops
+    for i in range(80 if q else 1000):
+        s1, s2 = rng.sample([0.25, 0.5, 1.0, 2.0, 4.0, 10.0], 2)
+        ops = rand_path_ops(rng, 32 / s2, 32 / s2, 24 / s2, curves=True, grid=16.0)
+        cases.append(("stroke_repeat", [f2b(rng.choice([2.0, 4.0, 8.0]) / s2), f2b(s1), f2b(s2), i % 2] + ops))
     return cases
 
 
@@ -98,6 +111,8 @@ def oracle(suite, args, out):
     o = ints(out)
     if suite == "stroker_hist" and len(o) == 4 and o[2] > 0:
         return "a reused PathStroker returned a different result from a fresh one in %d of %d calls (first: call %d)" % (o[2], o[0], o[3])
+    if suite == "stroke_repeat" and len(o) == 2 and o[1] > 0:
+        return "%d bytes of a stroke differ depending on whether the same path was stroked under another transform before on the same thread" % o[1]
     if suite == "draw_hist" and len(o) == 4:
         if o[1] > 0:
             return "%d bytes differ between drawing on the pixmap a previous scene left and on a copy of the same bytes" % o[1]
@@ -120,4 +135,6 @@ def nontrivial_tag(suite, args, out):
         return "hist" if len(o) == 4 and o[1].isdigit() and int(o[1]) > 1 else None
     if suite == "draw_hist":
         return "draw" if len(o) == 4 and o[0] != "0" else None
+    if suite == "stroke_repeat":
+        return "repeat" if len(o) == 2 and o[0] not in ("0", "-3", "-4") else None
     return "builder-reuse" if len(o) > 3 else None
